@@ -249,10 +249,24 @@ func checkMapRangeClass(fn *ssa.Function, rg *ssa.Range, class string) (bool, st
 					if rootAlloc(x.Addr) == nil {
 						return false, "the loop writes to non-local memory"
 					}
+					// a local that accumulates in iteration order (slice, string, number) is not a set
+					switch x.Val.Type().Underlying().(type) {
+					case *types.Slice:
+						return false, "the loop builds a slice in iteration order"
+					case *types.Basic:
+						if _, fromNext := x.Val.(*ssa.Extract); !fromNext {
+							if _, isConst := x.Val.(*ssa.Const); !isConst {
+								return false, "the loop accumulates a value in iteration order"
+							}
+						}
+					}
 				case *ssa.Send, *ssa.Go, *ssa.Defer:
 					return false, fmt.Sprintf("the loop has another effect (%T)", in)
 				case *ssa.Call:
-					if _, ok := x.Call.Value.(*ssa.Builtin); ok {
+					if bi, ok := x.Call.Value.(*ssa.Builtin); ok {
+						if bi.Name() == "append" || bi.Name() == "copy" {
+							return false, "the loop appends in iteration order"
+						}
 						continue
 					}
 					return false, "the loop calls " + x.Call.Value.Name()
